@@ -73,12 +73,21 @@ def _cases(draw):
         s["delimiter"] = g.pick(["+", ";", "#"])
     if form.get("_langs") and P(0.4):
         s["default_language"] = g.pick(form["_langs"])
+    both_ids = False
+    if "form_id" in s and P(0.15):
+        s["id_string"] = uniq("ids_")     # both columns: form_id is the documented winner, whichever column comes first
+        both_ids = True
+    if P(0.15):
+        # custom attributes that collide with the standard ones: the standard ones win
+        for std, col in (("version", "attribute::version"), ("form_id", "attribute::id"), ("prefix", "attribute::odk:prefix"), ("delimiter", "attribute::odk:delimiter")):
+            if std in s and P(0.5):
+                s[col] = uniq("custom")
     keys = list(s)
     keys = g.shuffled(keys)
     form["settings"] = {k: s[k] for k in keys}
     c = {"form": form}
     if P(0.5):
-        c["alias"] = {k: g.pick(v) for k, v in ALIAS.items() if k in s and P(0.5)}
+        c["alias"] = {k: g.pick(v) for k, v in ALIAS.items() if k in s and P(0.5) and not (both_ids and k == "form_id")}
     if P(0.35):
         c["stem"] = g.pick(STEMS)
         # the suffix is only a hint: upper-case, unknown or missing suffixes must still supply the stem
@@ -223,6 +232,8 @@ def evaluate(case) -> Outcome:
     for k, val in s.items():
         if k.startswith("attribute::"):
             an = k[len("attribute::"):]
+            if an in ("id", "version", "odk:prefix", "odk:delimiter") and {"id": "form_id", "version": "version", "odk:prefix": "prefix", "odk:delimiter": "delimiter"}[an] in s:
+                continue  # the setting wins over a custom attribute of the same name (checked by the id/version/prefix clauses)
             out.checked("C11.attribute")
             if ":" in an:
                 pre, loc = an.split(":", 1)
